@@ -520,7 +520,7 @@ func RunC04(c *Ctx, r *Report) {
 	)
 	r.Assumptions = append(r.Assumptions,
 		"receivers and pointer parameters of exported entry points are non-nil; IKESAKey objects are nil or fully populated by GenerateKeyForIKESA",
-		"int has at least 32 bits (thorough tier re-proves every obligation for GOARCH=386)",
+		"int is 64 bits wide: the module does not compile for 32-bit targets (message/header.go compares an int with 0xFFFFFFFF), so no 32-bit build exists",
 		"standard-library callees do not panic when their documented preconditions hold",
 	)
 	r.NotDecided = append(r.NotDecided,
